@@ -12,7 +12,7 @@ import (
 // finders, the markup parsers and the two-pass logic. docspec = template id; the
 // members inside a template rotate with the PRNG of the docGen.
 
-const nRichDocs = 19
+const nRichDocs = 20
 
 func pagerHTML(g *docGen, style string, n, k int) string {
 	var sb strings.Builder
@@ -157,6 +157,9 @@ func richDoc(id int, g *docGen) string {
 	case 17: // many pages of one site share the <title>; only headings and body differ
 		return "<!DOCTYPE html><html><head><title>" + g.pick("Zq Daily", "Zq Daily", "The Zq Daily Blog: News") + "</title></head><body><div><h1>" +
 			g.words(5) + "</h1><h2>" + g.words(3) + "</h2>" + story(3) + "</div></body></html>"
+	case 18: // pager whose links repeat a query key and carry more parameters than the page URL
+		body.WriteString("<div>" + story(3) + `</div><div><a href="/story/view?tag=go&amp;tag=web&amp;pg=1">1</a> <a href="/story/view?tag=go&amp;tag=web&amp;pg=2">2</a> ` +
+			`<a href="/story/view?tag=go&amp;tag=web&amp;pg=3">3</a> <a href="/story/view?pg=4&amp;pg=5">4</a> <a href="/story/view?a=1&amp;pg=5&amp;b=2&amp;b=3">5</a></div>`)
 	default: // a random abstract document through the doc-family concretiser
 		forest := randomForest(r, 14)
 		return g.page(forest, docPlaces[r.Intn(len(docPlaces))])
